@@ -68,13 +68,15 @@ def gen(rng, tier):
         # the pointer passed explicitly, floats from vector registers
         ops.append(line(env, cc, 0, [(79, "r40"), (40, "i1"), (79, "r40"), (79, "r38")]))
         ops.append(line(env, cc, 0, [(40, "i1"), (40, "i2"), (40, "i3"), (40, "i4"), (79, "r40"), (79, "v79")]))
+        if env == "x64l" and cc == 32:
+            # __m64 parameters (SysV: xmm registers, then the stack) from GP / immediates
+            ops.append(line(env, cc, 0, [(43, "v69")] * 8 + [(49, "r38"), (50, "r38"), (49, "i80000000"), (50, "iffffffff80000000"), (50, "r40"), (49, "r34")]))
         for rot in range(4):
             fts = [(42, "v59"), (43, "v69"), (42, "v79"), (43, "v79"), (42, "v42"), (43, "v43")]
             ops.append(line(env, cc, 0, [fts[(rot + k) % 6] for k in range(10)]))
     for env, cc in COMBOS32:
         ops.append(line(env, cc, 0, [(42, "v59"), (43, "v69"), (79, "v79"), (38, "r38"), (43, "v79")]))
         ops.append(line(env, cc, 1, [(79, "v79"), (79, "v79"), (79, "v79"), (79, "v79"), (38, "i80000000")]))
-        ops.append(line(env, cc, 0, [(49, "r38"), (50, "r38"), (49, "i80000000"), (50, "iffffffff80000000")]))
     # S4 seeded random mixes
     for _ in range(nrand):
         env, cc = rng.choice(COMBOS64 + COMBOS32)
@@ -95,6 +97,90 @@ def gen(rng, tier):
                 args.append((vt, "v%d" % (vt if vt > 43 else rng.choice([59, 79]) if vt == 42 else rng.choice([69, 79]))))
         ops.append(line(env, cc, fl, args))
     return list(dict.fromkeys(ops))
+
+
+def gen_x(rng, tier):
+    """host execution lines (x86-64 SysV caller; SysV / Win64 callee): immediates and registers of every integer type at register and
+    stack positions, by-reference and by-value vectors, floats"""
+    ops = []
+    for cc in (32, 33):
+        nreg = 6 if cc == 32 else 4
+        for t in INTS:
+            for rot in range(0, len(BOUNDARY), 2 if tier == "quick" else 1):
+                ops.append("ivx %d 0 %d %s" % (cc, nreg + 4, " ".join("%d=i%x" % (t, BOUNDARY[(rot + k) % len(BOUNDARY)]) for k in range(nreg + 4))))
+            for rot in range(8):
+                ops.append("ivx %d 0 %d %s" % (cc, nreg + 4, " ".join("%d=r%d" % (t, INTS[(rot + k) % 8]) for k in range(nreg + 4))))
+        for pos in range(0, 8):
+            for vt, fl in ((79, 0), (79, 2), (89, 2), (74, 0)):
+                args = ["40=i%x" % BOUNDARY[(pos + k) % len(BOUNDARY)] for k in range(pos)] + ["%d=v%d" % (vt, vt)]
+                ops.append("ivx %d %x %d %s" % (cc, fl, len(args), " ".join(args)))
+        ops.append("ivx %d 2 6 79=v79 89=v89 40=i80000000 79=v79 40=iffffffff 89=v89" % cc)
+        fts = ["42=v59", "43=v69", "42=v79", "43=v79"]
+        for rot in range(4):
+            ops.append("ivx %d 0 12 %s" % (cc, " ".join(fts[(rot + k) % 4] for k in range(12))))
+    for _ in range(100 if tier == "quick" else 1500):
+        cc = rng.choice((32, 33))
+        fl = rng.choice((0, 2))
+        args = []
+        for k in range(rng.randint(1, 12)):
+            c = rng.random()
+            if c < 0.45:
+                v = rng.choice(BOUNDARY) if rng.random() < 0.7 else rng.getrandbits(rng.choice([8, 16, 31, 32, 33, 63, 64]))
+                args.append("%d=i%x" % (rng.choice(INTS), v))
+            elif c < 0.8:
+                args.append("%d=r%d" % (rng.choice(INTS), rng.choice(INTS)))
+            else:
+                vt = rng.choice([79, 79, 42, 43] + ([89] if fl & 2 else []))
+                args.append("%d=v%d" % (vt, vt if vt > 43 else rng.choice([59, 79]) if vt == 42 else rng.choice([69, 79])))
+        ops.append("ivx %d %x %d %s" % (cc, fl, len(args), " ".join(args)))
+    return list(dict.fromkeys(ops))
+
+
+def ivx_key(op, mon):
+    m = re.match(r"BAD arg (\d+)", mon)
+    w = op.split()
+    if m:
+        t, o = w[4 + int(m.group(1))].split("=")
+        kind = {"i": "imm", "r": "reg", "v": "vec"}[o[0]]
+        if kind == "reg" and SIZE.get(int(t), 0) > SIZE.get(int(o[1:]), 9):
+            # which position? register positions are the K9 class; on the stack move_reg_to_stack_arg extends
+            return "invoke:reg-arg-not-extended"
+        return "invoke:executed:%s-arg" % kind
+    return "invoke:executed:" + mon.split()[0]
+
+
+def run_host(res, h, rng):
+    ops = gen_x(rng, res.tier)
+    probe, rc, err = vlib.run_lines([str(h)], ["ivx 32 0 1 40=i1"])
+    if rc != 0 or not probe or not probe[0].startswith("ok"):
+        res.coverage["ivx_evaluations"] = 0
+        res.assumptions.append("host execution of invoke lowering skipped: " + (probe[0] if probe else err[-200:]))
+        return
+    impl, rc, err = vlib.run_lines([str(h)], ops)
+    if rc != 0 or len(impl) != len(ops):
+        bad_op = None
+        for o in ops:
+            r, rc1, e1 = vlib.run_lines([str(h)], [o])
+            if rc1 != 0:
+                bad_op, err = o, e1
+                break
+        res.violation("harness aborted while EXECUTING a lowered invoke on %r: %s" % (bad_op, err[-800:]), {"ops": [bad_op], "stderr": err[-3000:]},
+                      True, key="crash:ivx")
+        return
+    mon, _, err3 = vlib.run_model("C06", ["mon%s # %s" % (o, a) for o, a in zip(ops, impl)])
+    if len(mon) != len(ops):
+        res.violation("driver protocol failure (ivx) %d/%d %s" % (len(ops), len(mon), err3[-300:]), {}, False, key="protocol")
+        return
+    bad = {}
+    for o, a, m in zip(ops, impl, mon):
+        if m.startswith("BAD") or not (m == "OK" or m.startswith("SKIP")):
+            bad.setdefault(ivx_key(o, m), []).append((o, a, m))
+    for key, lst in sorted(bad.items()):
+        o, a, m = min(lst, key=lambda x: len(x[0]))
+        res.violation("invoke lowering, executed on the host: the callee received something else than the caller passed (%s, %d inputs): "
+                      "%s -> %s ; %s" % (key, len(lst), o, a[:300], m), {"ops": [o], "impl": a, "monitor": m}, True, key=key)
+    res.coverage["ivx_evaluations"] = len(ops)
+    res.coverage["ivx_executed_ok"] = len([m for m in mon if m == "OK"])
 
 
 REG = re.compile(r"\br(\d+)\.\d+")
@@ -201,6 +287,7 @@ def run_invoke(res, h, rng):
     res.coverage["iv_judged_by_machine"] = judged
     res.coverage["iv_nontrivial"] = len([a for a in impl if a.startswith("ok")])
     res.add_samples([{"op": o, "impl": a, "model": b} for o, a, b in list(zip(ops, impl, model))[5::max(1, len(ops) // 3)]], limit=3)
+    run_host(res, h, rng)
     if diffs:
         o, a, b = diffs[0]
         return (o, a, b, len(diffs))
